@@ -56,6 +56,9 @@ structure St where
   c11LastAcct : String := ""
   c11Sizes : Option Nat := none
   c11RoundDisks : List String := []  -- disk view at the end of each round
+  c11PBound : Nat := 1               -- a dead primary file must be released by round c11PBound (0-based): 1 for complete cycles;
+                                     -- with the collector's time limit expiring in every cycle (one file per cycle): the number
+                                     -- of non-current files at the mark + 1
   c11Pgc : Nat := 0                  -- complete primary GC cycles / index GC cycles / flushes since the mark
   c11Igc : Nat := 0
   c11Flush : Nat := 0
@@ -461,7 +464,16 @@ def stepCore (st : St) (l : Line) : St × List Msg :=
         (if r = .deadline then [Msg.flag "gc-deadline"] else []) ++
         (if d'.ihdr ≠ d.ihdr then [Msg.flag "igc-unlinked"] else []))
     | "pgc" =>
-      let budget : Budget := if l.args.get "budget" = "-1" then none else some (l.args.nat "budget")
+      -- tl=1: the time limit expires while the first file is being visited; the freelist phase is not subject to it. In the
+      -- model's terms: the budget is exactly the number of polls the two hand-over passes take
+      let tlBudget : Budget :=
+        let big := 1000000000
+        let (r1, m1, d1, b1, _) := freelistPass m d (some big)
+        match r1 with
+        | .ok => let (_, _, _, b2, _) := freelistPass m1 d1 b1; some (big - b2.getD 0)
+        | _ => some (big - b1.getD 0)
+      let budget : Budget := if l.args.get "tl" = "1" then tlBudget
+        else if l.args.get "budget" = "-1" then none else some (l.args.nat "budget")
       match primaryGC m d (l.args.nat "lowuse") budget with
       | none => (st, cmp "pgc" "err" l.res)
       | some (r, m', d', _) =>
@@ -529,7 +541,8 @@ def stepCore (st : St) (l : Line) : St × List Msg :=
         | [_, p] => (p.toNat?).map fun pos => (pos - 4) / ifs
         | _ => none
       ({ st with c11Marked := true, c11DeadP := pfiles.filter (fun n => n < pcur ∧ !liveP.contains n),
-                 c11FreeI := ifiles.filter (fun n => n < icur ∧ !refI.contains n), c11Round := 0, c11Pgc := 0, c11Igc := 0, c11Flush := 0 },
+                 c11FreeI := ifiles.filter (fun n => n < icur ∧ !refI.contains n), c11Round := 0, c11Pgc := 0, c11Igc := 0, c11Flush := 0,
+                 c11PBound := if l.args.get "tl" = "1" then (pfiles.filter (· < pcur)).length + 1 else 1 },
         [Msg.flag "c11"] ++ (if (pfiles.filter (fun n => n < pcur ∧ !liveP.contains n)).isEmpty then [] else [Msg.flag "c11-dead-primary-files"]) ++
         (if (ifiles.filter (fun n => n < icur ∧ !refI.contains n)).isEmpty then [] else [Msg.flag "c11-unreferenced-index-files"]))
     | "c11round" =>
@@ -539,10 +552,10 @@ def stepCore (st : St) (l : Line) : St × List Msg :=
       let n := disks.length
       let fixedPoint := n ≥ 2 ∧ disks.getD (n - 1) "" = disks.getD (n - 2) "x"
       -- the verdicts "never released" / "no fixed point" need the cycles to have actually run (a shortened trace proves nothing)
-      let enoughP := st.c11Pgc ≥ 4 ∧ st.c11Flush ≥ 4
+      let enoughP := st.c11Pgc ≥ st.c11PBound + 3 ∧ st.c11Flush ≥ 4
       let enoughI := st.c11Igc ≥ 4 ∧ st.c11Flush ≥ 4
       let pr := (match st.c11PReleasedAt with
-        | some r => if r ≤ 1 then [] else [Msg.prop s!"primary files {st.c11DeadP} held no live data after the flush but were released only after {r + 1} GC cycles (bound 2)"]
+        | some r => if r ≤ st.c11PBound then [] else [Msg.prop s!"primary files {st.c11DeadP} held no live data after the flush but were released only after {r + 1} GC cycles (bound {st.c11PBound + 1})"]
         | none => if st.c11DeadP.isEmpty ∨ !enoughP then [] else [Msg.prop s!"primary files {st.c11DeadP} held no live data after the flush and are still not released after {st.c11Pgc} GC cycles: [{(resArgs st.c11LastDisk).get "pfiles"}]"]) ++
         (match st.c11IReleasedAt with
         | some r => if r ≤ 1 then [] else [Msg.prop s!"index files {st.c11FreeI} were unreferenced but were released only after {r + 1} index GC cycles (bound 2)"]
@@ -559,7 +572,7 @@ def step (st : St) (l : Line) : St × List Msg :=
   let st' := if l.op == "pgc" && dirtyBefore then { st' with gcDirty := true }
              else if (l.op == "flush" || l.op == "iter" || l.op == "close" || l.op == "paths") && l.res.startsWith "ok" then { st' with gcDirty := false }
              else st'
-  let st' := if l.op == "pgc" && l.res.startsWith "ok" && l.args.get "budget" == "-1" then { st' with c11Pgc := st'.c11Pgc + 1 }
+  let st' := if l.op == "pgc" && ((l.res.startsWith "ok" && l.args.get "budget" == "-1") || (l.args.get "tl" == "1" && (l.res.startsWith "ok" || l.res == "deadline"))) then { st' with c11Pgc := st'.c11Pgc + 1 }
              else if l.op == "igc" && l.res == "ok" && l.args.get "budget" == "-1" then { st' with c11Igc := st'.c11Igc + 1 }
              else if l.op == "flush" && l.res.startsWith "ok" then { st' with c11Flush := st'.c11Flush + 1 }
              else st'
